@@ -95,6 +95,11 @@ CLAIMED["C02"] = ("5/C02",
    "Not covered: bank balance = reported reserves over histories, supply of non-share tokens, cosmwasm pools, pool-model internals. Trusted: bank keeper semantics.",
    "SSA origin-term / pairing (paired-argument, paired-result) / who-may-call rules")
 
+CLAIMED["C04"] = ("5/C04",
+   "Static rules over the balancer / stableswap pool models and cfmm_common decide: amounts paid out are truncated and amounts charged ceiled at the pool boundary; the spread factor is taken off the input before the curve and grossed up on the required input; exit amounts are truncated with the share and reserve guards in place; proportional joins truncate shares and ceil the used amount; the stableswap solver scales reserves/input down, the requested output up and divides by (1-sf) rounding up; each state-mutating swap returns exactly its pure calculation's result for the same arguments and applies exactly those coins to the reserves.",
+   "Not covered: agreement with the constant-weighted-product formula to powPrecision, monotonicity of the stableswap invariant, value conservation over sequences (numeric). Trusted: osmomath Pow / binary search (C13).",
+   "SSA origin-term / rounding-class / sibling-agreement rules")
+
 NOT_YET = "check not built yet in this revision (static rule set under construction; see DESIGN.md section 5)"
 
 def main():
